@@ -180,6 +180,14 @@ pub fn emit_module(spec: &Spec) -> String {
     }
     s.push_str(&format!("    impl{} I{} {{\n", generics, ty_args));
     for (id, d) in spec.decls.iter().enumerate() {
+        // ordinary (non-#[scpi]) items between the handlers: a constructor-like function first, a
+        // helper after every third handler
+        if id == 0 {
+            s.push_str("        pub fn plain_item_before_all_handlers() -> usize { 0 }\n");
+        }
+        if id % 3 == 2 {
+            s.push_str(&format!("        pub fn plain_item_{}(&self) -> usize {{ {} }}\n", id, id));
+        }
         let params: Vec<String> = d
             .params
             .iter()
@@ -306,6 +314,9 @@ pub fn emit_module_noalloc(spec: &Spec) -> String {
         let sums: Vec<String> = (0..d.params.len()).map(|i| format!("Sum::sum(&a{})", i)).collect();
         let sum_expr = if sums.is_empty() { "0u32".to_string() } else { sums.join(".wrapping_mul(33) ^ ") };
         let app = id % 3 == 1;
+        if id % 4 == 0 {
+            s.push_str(&format!("        pub fn plain_item_{}(&self) -> usize {{ {} }}\n", id, id));
+        }
         s.push_str(&format!("        #[scpi(cmd = \"{}\")]\n", d.cmd));
         s.push_str(&format!(
             "        pub {}fn h{}(&mut self{}{}) -> Result<{}, {}> {{\n            self.{}({}, {})?;\n            Ok({})\n        }}\n",
